@@ -224,17 +224,22 @@ func (s *Store) SrcLogLen() int {
 	return len(s.srcLog)
 }
 
-// AwaitSrc spins until the call log has an entry `m` at or after position from.
-func (s *Store) AwaitSrc(from int, m string) {
+// AwaitSrc waits until the call log has an entry `m` at or after position from (false: not within
+// GateTimeout).
+func (s *Store) AwaitSrc(from int, m string) bool {
+	deadline := time.Now().Add(GateTimeout)
 	for {
 		s.srcMu.Lock()
 		for _, x := range s.srcLog[min(from, len(s.srcLog)):] {
 			if x == m {
 				s.srcMu.Unlock()
-				return
+				return true
 			}
 		}
 		s.srcMu.Unlock()
+		if time.Now().After(deadline) {
+			return false
+		}
 		runtime.Gosched()
 	}
 }
